@@ -1,7 +1,433 @@
-//! C04 — not built yet
-use crate::vcore::Tier;
+//! C04 — ULA memory and I/O contention delays match the 48K/128K contention model.
+//!
+//! E-PROD on the real controller: every encoding x every timing variant x every placement of its
+//! address roles in contended/uncontended memory x both machines x every start T-state of the
+//! frame (quick: complete windows), single-stepped on the real Emulator (teleported frame clock)
+//! and on RefZ80 + RefULA; oracle: elapsed T-states are equal. A second layer puts each bus-cycle
+//! kind at 0xC000 under all eight 128K banks.
 
-pub fn run(_tier: Tier, _seed: u64, _replay: Option<String>) -> i32 {
-    eprintln!("MACHINERY: check C04 is not built yet");
-    2
+use crate::refzx::*;
+use crate::rig::{self, Emu, Opts, RegsView};
+use crate::vcore::{par_for_with, Ctx, Tier};
+use crate::z80prod::{all_encodings, encoding_bytes, kind_name};
+use refz80::{RefZ80, StepKind};
+use serde_json::json;
+use std::collections::BTreeSet;
+
+#[derive(Clone, Copy, Debug, PartialEq, Eq)]
+pub struct Placement {
+    /// bit per role: 1 = contended region. roles: 0 code, 1 nn operand, 2 HL/IX/IY, 3 BC/DE/A (port high byte), 4 SP, 5 I
+    pub bits: u8,
+    /// region high-byte bases (contended, uncontended)
+    pub cont_base: u8,
+    pub unc_base: u8,
+}
+
+#[derive(Clone, Copy, Debug, PartialEq, Eq)]
+pub struct Variant {
+    pub f: u8,
+    /// 0: B = region byte (repeat/taken), 1: B=0,C=1 (BC==1: LDIR final), 2: B=1 (DJNZ/INIR final)
+    pub counter: u8,
+    pub odd_port: bool,
+}
+
+pub struct Setup {
+    pub regs: RegsView,
+    pub code: [u8; 6],
+    pub len: usize,
+}
+
+pub fn build(kind: u8, op: u8, p: &Placement, v: &Variant) -> Option<Setup> {
+    let (mut code, len, o1, o2) = encoding_bytes(kind, op)?;
+    let hi = |role: u8, off: u8| -> u8 {
+        (if p.bits & (1 << role) != 0 { p.cont_base } else { p.unc_base }).wrapping_add(off)
+    };
+    code[o1] = if v.odd_port { 0x35 } else { 0x34 };
+    if o2 != o1 {
+        code[o2] = hi(1, 2);
+    }
+    let mut r = RegsView::default();
+    let a = hi(3, 5);
+    r.af = (a as u16) << 8 | v.f as u16;
+    let (b, c) = match v.counter {
+        0 => (hi(3, 4), if v.odd_port { 0x37 } else { 0x36 }),
+        1 => (0x00, 0x01),
+        _ => (0x01, if v.odd_port { 0x37 } else { 0x36 }),
+    };
+    r.bc = (b as u16) << 8 | c as u16;
+    r.de = (hi(3, 4) as u16) << 8 | 0x50;
+    r.hl = (hi(2, 3) as u16) << 8 | 0x10;
+    r.ix = (hi(2, 3) as u16) << 8 | 0x20;
+    r.iy = (hi(2, 3) as u16) << 8 | 0x30;
+    r.sp = (hi(4, 6) as u16) << 8 | 0x80;
+    r.pc = (hi(0, 1) as u16) << 8;
+    r.i = hi(5, 7);
+    r.r = 0x11;
+    r.af_ = 0x1234;
+    r.bc_ = 0x2345;
+    r.de_ = 0x3456;
+    r.hl_ = (hi(2, 3) as u16) << 8 | 0x40;
+    r.im = 1;
+    r.memptr = 0x0123;
+    Some(Setup { regs: r, code, len })
+}
+
+fn to_ref(v: &RegsView) -> RefZ80 {
+    let mut s = RefZ80::new();
+    let [a, f] = v.af.to_be_bytes();
+    s.a = a;
+    s.f = f;
+    let [b, c] = v.bc.to_be_bytes();
+    s.b = b;
+    s.c = c;
+    let [d, e] = v.de.to_be_bytes();
+    s.d = d;
+    s.e = e;
+    let [h, l] = v.hl.to_be_bytes();
+    s.h = h;
+    s.l = l;
+    let [a2, f2] = v.af_.to_be_bytes();
+    s.a_alt = a2;
+    s.f_alt = f2;
+    let [b2, c2] = v.bc_.to_be_bytes();
+    s.b_alt = b2;
+    s.c_alt = c2;
+    let [d2, e2] = v.de_.to_be_bytes();
+    s.d_alt = d2;
+    s.e_alt = e2;
+    let [h2, l2] = v.hl_.to_be_bytes();
+    s.h_alt = h2;
+    s.l_alt = l2;
+    s.ix = v.ix;
+    s.iy = v.iy;
+    s.sp = v.sp;
+    s.pc = v.pc;
+    s.i = v.i;
+    s.r = v.r;
+    s.iff1 = v.iff1;
+    s.iff2 = v.iff2;
+    s.im = v.im;
+    s.halted = v.halted;
+    s.memptr = v.memptr;
+    s.q = v.q;
+    s
+}
+
+/// Reference run: returns (elapsed T, contended cycle kinds, window of every access as a signature)
+fn ref_step(spec: UlaSpec, cont: Contended, t: u64, regs: &RegsView, read: &dyn Fn(u16) -> u8) -> (u64, Vec<CycKind>) {
+    let io = |_p: u16, _t: u64| 0xFFu8;
+    let mut bus = RefMachine::new(spec, cont, t, read, &io);
+    bus.int_enabled_lines = false;
+    let mut cpu = to_ref(regs);
+    for _ in 0..8 {
+        match cpu.step(&mut bus) {
+            StepKind::Instruction => break,
+            _ => {}
+        }
+    }
+    (bus.t - t, bus.kinds.clone())
+}
+
+fn impl_step(e: &mut Emu, m128: bool, t: usize, s: &Setup) -> u64 {
+    e.verif_set_frame_clocks(t);
+    rig::set_regs(e.verif_cpu(), &s.regs);
+    let t0 = rig::abs_t(e, m128);
+    for _ in 0..6 {
+        rig::step(e);
+        if e.verif_cpu().verif_active_prefix() == 0 {
+            break;
+        }
+    }
+    rig::abs_t(e, m128) - t0
+}
+
+pub fn tset(spec: &UlaSpec, quick: bool) -> Vec<usize> {
+    if !quick {
+        return (0..spec.frame as usize).collect();
+    }
+    let mut s = BTreeSet::new();
+    let t0 = spec.t0 as usize;
+    let line = spec.line as usize;
+    let mut add = |a: usize, b: usize| {
+        for t in a..b.min(spec.frame as usize) {
+            s.insert(t);
+        }
+    };
+    add(0, 40);
+    add(t0 - 24, t0 + line + 16);
+    add(t0 + 96 * line - 8, t0 + 96 * line + 136);
+    add(t0 + 190 * line + 100, t0 + 192 * line + 24);
+    add(spec.frame as usize - 48, spec.frame as usize);
+    s.into_iter().collect()
+}
+
+struct Worker {
+    e48: Emu,
+    e128: Emu,
+}
+
+fn mk_worker() -> Worker {
+    let mut o48 = Opts::k48();
+    o48.sound = false;
+    let mut o128 = Opts::k128();
+    o128.sound = false;
+    Worker {
+        e48: rig::emu_stepping(&o48),
+        e128: rig::emu_stepping(&o128),
+    }
+}
+
+fn kinds_key(k: &[CycKind]) -> String {
+    let s: BTreeSet<String> = k.iter().map(|x| format!("{:?}", x)).collect();
+    if s.is_empty() {
+        "uncontended".into()
+    } else {
+        s.into_iter().collect::<Vec<_>>().join("+")
+    }
+}
+
+#[allow(clippy::too_many_arguments)]
+fn sweep(ctx: &Ctx, e: &mut Emu, m128: bool, top_bank: u8, kind: u8, op: u8, p: &Placement, v: &Variant, ts: &[usize], outcomes: &mut BTreeSet<u64>) -> u64 {
+    let spec = spec(m128);
+    let cont = Contended::new(m128, top_bank);
+    let s = match build(kind, op, p, v) {
+        Some(s) => s,
+        None => return 0,
+    };
+    let mut n = 0u64;
+    let mut reported = false;
+    for &t in ts {
+        // the instruction may have modified its own code or data: re-place the code each step
+        rig::poke(e, s.regs.pc, &s.code[..s.len]);
+        let (rt, kinds) = {
+            let er: &Emu = e;
+            let read = |a: u16| er.peek(a);
+            ref_step(spec, cont, t as u64, &s.regs, &read)
+        };
+        let it = impl_step(e, m128, t, &s);
+        n += 1;
+        if outcomes.len() < 512 {
+            outcomes.insert(rt << 8 | (t as u64 % 8));
+        }
+        if it != rt && !reported {
+            reported = true;
+            let mach = if m128 { "128k" } else { "48k" };
+            ctx.violation(
+                &format!("C04:{}:{}", mach, kinds_key(&kinds)),
+                &format!(
+                    "{} machine, encoding {} {:02x} (bytes {}), start T={} placement bits {:06b} (bases {:02x}/{:02x}, bank {} at C000), F={:02x} counter-variant {} odd-port {}: takes {} T, contention model says {} T (contended cycles: {})",
+                    mach, kind_name(kind), op, crate::vcore::hex(&s.code[..s.len]), t, p.bits, p.cont_base, p.unc_base, top_bank, v.f, v.counter, v.odd_port, it, rt, kinds_key(&kinds)
+                ),
+                json!({"kind":"step","m128":m128,"bank":top_bank,"enc_kind":kind,"op":op,"t":t,"pbits":p.bits,"cont_base":p.cont_base,"unc_base":p.unc_base,"f":v.f,"counter":v.counter,"odd":v.odd_port}),
+            );
+        }
+    }
+    n
+}
+
+/// Roles whose region matters for this encoding/variant (changing it moves an access between windows)
+fn relevant_roles(kind: u8, op: u8, v: &Variant, e: &Emu) -> Vec<u8> {
+    let sig = |bits: u8| -> Vec<(u8, u8)> {
+        let p = Placement { bits, cont_base: 0x60, unc_base: 0x90 };
+        let s = match build(kind, op, &p, v) {
+            Some(s) => s,
+            None => return vec![],
+        };
+        // run the reference on a recording bus (windows of all accesses)
+        let code = s.code;
+        let pc = s.regs.pc;
+        let len = s.len;
+        let read = |a: u16| {
+            let off = a.wrapping_sub(pc) as usize;
+            if off < len {
+                code[off]
+            } else {
+                e.peek(a)
+            }
+        };
+        let mut env = crate::z80lock::Env::new(0);
+        let _ = &mut env;
+        // use the lock-step RBus for its address log
+        let mut cpu = to_ref(&s.regs);
+        struct Rec<'a> {
+            read: &'a dyn Fn(u16) -> u8,
+            log: Vec<(u8, u8)>,
+        }
+        impl<'a> refz80::RefBus for Rec<'a> {
+            fn m1(&mut self, a: u16) -> u8 {
+                self.log.push((0, (a >> 14) as u8));
+                (self.read)(a)
+            }
+            fn mem_read(&mut self, a: u16) -> u8 {
+                self.log.push((1, (a >> 14) as u8));
+                (self.read)(a)
+            }
+            fn mem_write(&mut self, a: u16, _v: u8) {
+                self.log.push((2, (a >> 14) as u8));
+            }
+            fn delay(&mut self, a: u16, n: u8) {
+                self.log.push((3 + n, (a >> 14) as u8));
+            }
+            fn io_read(&mut self, p: u16) -> u8 {
+                self.log.push((40 + (p & 1) as u8, (p >> 14) as u8));
+                0xFF
+            }
+            fn io_write(&mut self, p: u16, _v: u8) {
+                self.log.push((50 + (p & 1) as u8, (p >> 14) as u8));
+            }
+            fn int_ack(&mut self) -> u8 {
+                0xFF
+            }
+            fn idle(&mut self, _n: u8) {}
+            fn int_line(&mut self) -> bool {
+                false
+            }
+            fn nmi_line(&mut self) -> bool {
+                false
+            }
+        }
+        let mut bus = Rec { read: &read, log: Vec::new() };
+        for _ in 0..8 {
+            if cpu.step(&mut bus) == StepKind::Instruction {
+                break;
+            }
+        }
+        bus.log
+    };
+    let base = sig(0);
+    (0..6u8).filter(|r| sig(1 << r) != base).collect()
+}
+
+fn variants() -> Vec<Variant> {
+    let mut v = Vec::new();
+    for counter in 0..3u8 {
+        for f in [0x00u8, 0xFF] {
+            for odd in [false, true] {
+                v.push(Variant { f, counter, odd_port: odd });
+            }
+        }
+    }
+    v
+}
+
+pub fn run(tier: Tier, seed: u64, replay: Option<String>) -> i32 {
+    let ctx = Ctx::new("C04", tier, seed, "model_checking");
+    let quick = !tier.is_thorough();
+    if let Some(path) = replay {
+        let v: serde_json::Value = serde_json::from_slice(&rig::read_file(&path)).expect("replay json");
+        let c = &v["case"];
+        let m128 = c["m128"].as_bool().unwrap_or(false);
+        let mut w = mk_worker();
+        let e = if m128 { &mut w.e128 } else { &mut w.e48 };
+        let bank = c["bank"].as_u64().unwrap_or(0) as u8;
+        if m128 {
+            rig::cpu_out(e, 0x8000, 0x7FFD, bank);
+        }
+        let p = Placement { bits: c["pbits"].as_u64().unwrap() as u8, cont_base: c["cont_base"].as_u64().unwrap() as u8, unc_base: c["unc_base"].as_u64().unwrap() as u8 };
+        let var = Variant { f: c["f"].as_u64().unwrap() as u8, counter: c["counter"].as_u64().unwrap() as u8, odd_port: c["odd"].as_bool().unwrap() };
+        let mut o = BTreeSet::new();
+        sweep(&ctx, e, m128, bank, c["enc_kind"].as_u64().unwrap() as u8, c["op"].as_u64().unwrap() as u8, &p, &var, &[c["t"].as_u64().unwrap() as usize], &mut o);
+        let n = ctx.violation_classes();
+        println!("replay: {} violation class(es) reproduced", n);
+        return (n > 0) as i32;
+    }
+    if let Err(e) = crate::oracle::require_valid() {
+        eprintln!("MACHINERY: reference model not validated: {}", e);
+        return 2;
+    }
+    let encs = all_encodings();
+    let ts48 = tset(&ULA48, quick);
+    let ts128 = tset(&ULA128, quick);
+    let vars = variants();
+    // quick: every 4th encoding per run would hide things; instead quick uses windows of T but all encodings
+    par_for_with(encs.len(), 1, mk_worker, |w, i| {
+        let (kind, op) = encs[i];
+        let mut outcomes = BTreeSet::new();
+        let mut seen_sigs: Vec<Vec<u8>> = Vec::new();
+        let mut evals = 0u64;
+        for v in vars.iter() {
+            // skip variants that do not change the reference cycle shape
+            let sig = {
+                let p = Placement { bits: 0, cont_base: 0x60, unc_base: 0x90 };
+                let s = match build(kind, op, &p, v) {
+                    Some(s) => s,
+                    None => continue,
+                };
+                rig::poke(&mut w.e48, s.regs.pc, &s.code[..s.len]);
+                let er = &w.e48;
+                let read = |a: u16| er.peek(a);
+                let (t, _) = ref_step(ULA48, Contended { w: [false; 4] }, 0, &s.regs, &read);
+                let (t2, k2) = ref_step(ULA48, Contended { w: [true; 4] }, ULA48.t0, &s.regs, &read);
+                let mut sg = vec![t as u8, t2 as u8];
+                sg.extend(k2.iter().map(|k| *k as u8));
+                sg
+            };
+            if seen_sigs.contains(&sig) {
+                continue;
+            }
+            seen_sigs.push(sig);
+            let roles = relevant_roles(kind, op, v, &w.e48);
+            let nplace = 1usize << roles.len();
+            for pi in 0..nplace {
+                let mut bits = 0u8;
+                for (k, r) in roles.iter().enumerate() {
+                    if pi & (1 << k) != 0 {
+                        bits |= 1 << r;
+                    }
+                }
+                let p = Placement { bits, cont_base: 0x60, unc_base: 0x90 };
+                evals += sweep(&ctx, &mut w.e48, false, 0, kind, op, &p, v, &ts48, &mut outcomes);
+                evals += sweep(&ctx, &mut w.e128, true, 0, kind, op, &p, v, &ts128, &mut outcomes);
+            }
+        }
+        ctx.add_eval(evals);
+        ctx.add_transitions(evals);
+        ctx.add_traces(evals);
+        for o in outcomes {
+            ctx.outcome(o ^ ((i as u64) << 32));
+        }
+        if i % 300 == 7 {
+            ctx.sample(json!({"encoding": format!("{} {:02x}", kind_name(kind), op), "timing_variants": seen_sigs.len(), "steps": evals}));
+        }
+    });
+    // Layer 1: every bus-cycle kind with its address at 0xC000 under all eight 128K banks
+    let probes: Vec<(u8, u8, u8)> = vec![
+        // (kind, op, role that is moved to C000)
+        (0, 0x00, 0), // NOP: fetch at C000
+        (0, 0x7E, 2), // LD A,(HL): read
+        (0, 0x77, 2), // LD (HL),A: write
+        (0, 0x34, 2), // INC (HL): read, delay, write
+        (0, 0xC5, 4), // PUSH BC: stack writes
+        (0, 0x09, 5), // ADD HL,BC: 7 delays at IR
+        (2, 0x78, 3), // IN A,(C): port high byte
+        (2, 0x79, 3), // OUT (C),A
+        (0, 0xDB, 3), // IN A,(n): port high byte from A
+        (2, 0xB0, 3), // LDIR: DE writes + delays
+    ];
+    par_for_with(probes.len() * 8, 1, mk_worker, |w, i| {
+        let (kind, op, role) = probes[i / 8];
+        let bank = (i % 8) as u8;
+        rig::cpu_out(&mut w.e128, 0x8000, 0x7FFD, bank);
+        let mut outcomes = BTreeSet::new();
+        let mut evals = 0;
+        for v in [Variant { f: 0, counter: 0, odd_port: false }, Variant { f: 0, counter: 0, odd_port: true }] {
+            // the probed role lives at C0xx+, all other roles at 90xx (uncontended)
+            let p = Placement { bits: 1 << role, cont_base: 0xC8, unc_base: 0x90 };
+            evals += sweep(&ctx, &mut w.e128, true, bank, kind, op, &p, &v, &ts128, &mut outcomes);
+        }
+        ctx.add_eval(evals);
+        ctx.add_transitions(evals);
+        ctx.add_traces(evals);
+        for o in outcomes {
+            ctx.outcome(o ^ ((i as u64) << 40));
+        }
+    });
+    ctx.note("start_t_states_48k", json!(ts48.len()));
+    ctx.note("start_t_states_128k", json!(ts128.len()));
+    ctx.note("t_coverage", json!(if quick { "complete windows: frame start, first picture line +-, line 96, lines 190-192 edge, frame end" } else { "every T-state of the frame" }));
+    ctx.finish(
+        "for every encoding x every timing variant (flags 00/FF x counter variants x port parity; variants with identical reference cycle shape merged) x every contended/uncontended assignment of the address roles the encoding uses (code, nn operand, HL/IX/IY, BC/DE/A as pointer and port high byte, SP, I) x {48K,128K} x every start T of the T set: one single step on the real Emulator (frame clock placed through the hook) and on RefZ80+RefULA; elapsed T must be equal; plus 10 cycle-kind probes with the address at 0xC000 under all eight 128K banks. distinct = distinct (elapsed, phase) outcomes per encoding",
+        true,
+        &["placing the frame clock through verif_set_frame_clocks assumes contention depends on the clock value only (C05 runs whole frames without placing the clock as the control)", "RefULA is the literal formula of the property text"],
+    )
 }
